@@ -30,7 +30,7 @@ def cases(prop, tier, seed):
                                 key=["C19", clfname, t]))
     elif prop == "C20":
         # inner strategies with a known C01 finding of their own (duplicates under ties) are not used to judge the wrappers
-        inner = [n for n, z in ZOO.items() if not n.startswith(("SubSampling", "Parallel", "TypiClust", "BatchBALD")) and z["kind"] == "clf"
+        inner = [n for n, z in ZOO.items() if not n.startswith(("SubSampling", "Parallel", "TypiClust", "BatchBALD", "US-eap")) and z["kind"] == "clf"
                  and not z["slow"]]
         for name in inner:
             for t in range(4 * reps):
